@@ -35,7 +35,7 @@ STEP_CAP = 20000
 
 def budget(tier):
     if tier == "quick":
-        return dict(runs=120000, wall=75, chunk=300)
+        return dict(runs=80000, wall=75, chunk=300)
     return dict(runs=900000, wall=840, chunk=400)
 
 
